@@ -184,7 +184,7 @@ fn intent_structured(prog_lines: Vec<String>) -> impl Strategy<Value = Intent> {
     ]
 }
 
-fn structured_session() -> impl Strategy<Value = Session> {
+pub fn structured_session() -> impl Strategy<Value = Session> {
     let cfg = GenCfg { max_blocks: 8, ..GenCfg::C03.with_input() };
     (gen::program(cfg), gen::style(), any::<u64>(), any::<bool>()).prop_flat_map(|(p, st, shuffle, verify_listing)| {
         let mut lines = render_program(&p, st);
@@ -205,7 +205,7 @@ fn structured_session() -> impl Strategy<Value = Session> {
     })
 }
 
-fn hostile_line() -> impl Strategy<Value = String> {
+pub fn hostile_line() -> impl Strategy<Value = String> {
     prop_oneof![
         6 => (0..BOUNDARY_LINES.len()).prop_map(|i| BOUNDARY_LINES[i].to_string()),
         4 => atom_line(14),
@@ -228,7 +228,7 @@ fn hostile_line() -> impl Strategy<Value = String> {
     ]
 }
 
-fn hostile_session() -> impl Strategy<Value = Session> {
+pub fn hostile_session() -> impl Strategy<Value = Session> {
     let intent = prop_oneof![
         10 => hostile_line().prop_map(Intent::Line),
         3 => (0..COMMANDS.len()).prop_map(|i| Intent::Line(COMMANDS[i].to_string())),
